@@ -10,6 +10,7 @@
 #include <map>
 #include <vector>
 #include <complex>
+#include <functional>
 #include "cxx_api.h"
 #include "gen_cxx.cpp"      // generated table, same translation unit: xraylib++.h defines non-inline functions
 extern "C" { extern long W_live; }
@@ -115,11 +116,100 @@ static void drive_objects() {
     for (int i = 0; i < n1; i++) ::xrlFree(a[i]); ::xrlFree(a); for (int i = 0; i < n2; i++) ::xrlFree(b[i]); ::xrlFree(b);
     observe("GetCompoundDataNISTList+GetRadioNuclideDataList", "", true, -1, "", same, xc, what, 0, W_live - l0, "{}"); }
 }
+// ---- the crystal wrappers: member functions and free functions of namespace Crystal, on the same crystal as the C call
+#include <unistd.h>
+#include <sys/wait.h>
+struct COut { int ok, code; char msg[200]; double v[2]; int iv; };
+static void wit_c(char *w, size_t n, const char *s, const int *h, double E, double deb, double rel, const int *fl) {
+  uint64_t b[3]; std::memcpy(&b[0], &E, 8); std::memcpy(&b[1], &deb, 8); std::memcpy(&b[2], &rel, 8);
+  snprintf(w, n, "{\"s\":\"%s\",\"i\":[%d,%d,%d,%d,%d,%d],\"d\":[[%d,%d],[%d,%d],[%d,%d]]}", esc(s).c_str(), h[0], h[1], h[2], fl ? fl[0] : 9, fl ? fl[1] : 9, fl ? fl[2] : 9,
+           (int32_t)(b[0] >> 32), (int32_t)b[0], (int32_t)(b[1] >> 32), (int32_t)b[1], (int32_t)(b[2] >> 32), (int32_t)b[2]);
+}
+static void drive_crystals(bool thorough, int part, int np) {
+  int nc = 0; char **names = ::Crystal_GetCrystalsList(nullptr, &nc, nullptr);
+  static const int MI[][3] = {{0, 0, 0}, {1, 1, 1}, {2, 2, 0}, {-1, 2, 3}, {4, 0, 0}, {12, 0, 7}};
+  static const double CE[] = {-1.0, 0.0, 0.3, 8.0, 100.0}, RA[] = {0.0, 1.0, 1.3}, DB[] = {-1.0, 0.5, 1.0};
+  static const int FL[][3] = {{2, 2, 2}, {0, 0, 0}, {1, 2, 0}, {3, 2, 2}, {2, 1, 2}, {2, 2, 5}};
+  char w[400];
+  for (int ci = 0; ci < nc; ci++) {
+    if (ci % np != part || (!thorough && ci % 3 != 0 && strcmp(names[ci], "Si") && strcmp(names[ci], "Muscovite"))) continue;
+    Crystal_Struct *c = ::Crystal_GetCrystal(names[ci], nullptr, nullptr); if (!c) continue;
+    xrlpp::Crystal::Struct x = xrlpp::Crystal::GetCrystal(names[ci]);
+    // a (C value, C error) pair against the member function and against the free function of the same name
+    auto pairD = [&](const char *fn, const std::string &argc, double cv, xrl_error *e, long leak_c, const char *wit, std::function<double()> member, std::function<double()> freef) {
+      bool ok = e == nullptr; int code = e ? (int)e->code : -1; std::string msg = e ? e->message : ""; xrl_clear_error(&e);
+      for (int k = 0; k < 2; k++) { double xv = 0; std::string what; long l0 = W_live; int xc = guarded([&] { xv = k ? freef() : member(); }, what);
+        observe((std::string(k ? "Crystal::" : "Crystal::Struct::") + fn).c_str(), argc, ok, code, msg, xc == X_NONE && biteq(cv, xv), xc, what, leak_c, W_live - l0, wit); } };
+    auto pairC = [&](const char *fn, const std::string &argc, xrlComplex cv, xrl_error *e, long leak_c, const char *wit, std::function<std::complex<double>()> member, std::function<std::complex<double>()> freef) {
+      bool ok = e == nullptr; int code = e ? (int)e->code : -1; std::string msg = e ? e->message : ""; xrl_clear_error(&e);
+      for (int k = 0; k < 2; k++) { std::complex<double> xv; std::string what; long l0 = W_live; int xc = guarded([&] { xv = k ? freef() : member(); }, what);
+        observe((std::string(k ? "Crystal::" : "Crystal::Struct::") + fn).c_str(), argc, ok, code, msg, xc == X_NONE && biteq(cv.re, xv.real()) && biteq(cv.im, xv.imag()), xc, what, leak_c, W_live - l0, wit); } };
+    { int h0[3] = {0, 0, 0}; wit_c(w, sizeof w, names[ci], h0, 0, 0, 0, nullptr); xrl_error *e = nullptr; long l0 = W_live; double v = ::Crystal_UnitCellVolume(c, &e); long lc = W_live - l0 - (e ? 2 : 0);
+      pairD("UnitCellVolume", "", v, e, lc, w, [&] { return x.UnitCellVolume(); }, [&] { return xrlpp::Crystal::UnitCellVolume(x); }); }
+    for (auto &h : MI) {
+      bool zero = !h[0] && !h[1] && !h[2]; std::string hc = zero ? "h0," : "h,";
+      { wit_c(w, sizeof w, names[ci], h, 0, 0, 0, nullptr); xrl_error *e = nullptr; long l0 = W_live; double v = ::Crystal_dSpacing(c, h[0], h[1], h[2], &e); long lc = W_live - l0 - (e ? 2 : 0);
+        pairD("dSpacing", hc, v, e, lc, w, [&] { return x.dSpacing(h[0], h[1], h[2]); }, [&] { return xrlpp::Crystal::dSpacing(x, h[0], h[1], h[2]); }); }
+      for (double E : CE) {
+        { wit_c(w, sizeof w, names[ci], h, E, 0, 0, nullptr); xrl_error *e = nullptr; long l0 = W_live; double v = ::Bragg_angle(c, E, h[0], h[1], h[2], &e); long lc = W_live - l0 - (e ? 2 : 0);
+          pairD("Bragg_angle", hc + dcls(E) + ",", v, e, lc, w, [&] { return x.Bragg_angle(E, h[0], h[1], h[2]); }, [&] { return xrlpp::Crystal::Bragg_angle(x, E, h[0], h[1], h[2]); }); }
+        for (double rel : RA) {
+          { wit_c(w, sizeof w, names[ci], h, E, 0, rel, nullptr); xrl_error *e = nullptr; long l0 = W_live; double v = ::Q_scattering_amplitude(c, E, h[0], h[1], h[2], rel, &e); long lc = W_live - l0 - (e ? 2 : 0);
+            pairD("Q_scattering_amplitude", hc + dcls(E) + "," + dcls(rel) + ",", v, e, lc, w, [&] { return x.Q_scattering_amplitude(E, h[0], h[1], h[2], rel); }, [&] { return xrlpp::Crystal::Q_scattering_amplitude(x, E, h[0], h[1], h[2], rel); }); }
+          for (double deb : DB) {
+            { wit_c(w, sizeof w, names[ci], h, E, deb, rel, nullptr); xrl_error *e = nullptr; long l0 = W_live; xrlComplex v = ::Crystal_F_H_StructureFactor(c, E, h[0], h[1], h[2], deb, rel, &e); long lc = W_live - l0 - (e ? 2 : 0);
+              pairC("F_H_StructureFactor", hc + dcls(E) + "," + dcls(deb) + "," + dcls(rel) + ",", v, e, lc, w, [&] { return x.F_H_StructureFactor(E, h[0], h[1], h[2], deb, rel); }, [&] { return xrlpp::Crystal::F_H_StructureFactor(x, E, h[0], h[1], h[2], deb, rel); }); }
+            if (rel == 1.3 || thorough) for (auto &fl : FL) {
+              wit_c(w, sizeof w, names[ci], h, E, deb, rel, fl); xrl_error *e = nullptr; long l0 = W_live; xrlComplex v = ::Crystal_F_H_StructureFactor_Partial(c, E, h[0], h[1], h[2], deb, rel, fl[0], fl[1], fl[2], &e); long lc = W_live - l0 - (e ? 2 : 0);
+              bool valid = (fl[0] >= 0 && fl[0] <= 2) && (fl[1] == 0 || fl[1] == 2) && (fl[2] == 0 || fl[2] == 2);
+              pairC("F_H_StructureFactor_Partial", hc + dcls(E) + "," + dcls(deb) + "," + dcls(rel) + (valid ? ",flags," : ",badflags,"), v, e, lc, w,
+                    [&] { return x.F_H_StructureFactor_Partial(E, h[0], h[1], h[2], deb, rel, fl[0], fl[1], fl[2]); }, [&] { return xrlpp::Crystal::F_H_StructureFactor_Partial(x, E, h[0], h[1], h[2], deb, rel, fl[0], fl[1], fl[2]); });
+            }
+          }
+        }
+      }
+    }
+    ::Crystal_Free(c);
+  }
+  // Atomic_Factors: three outputs
+  for (int Z = -1 + part; Z <= 121; Z += np) for (double E : CE) for (double q : {0.0, 0.5, -1.0}) for (double deb : DB) {
+    double a[3] = {0, 0, 0}, b[3] = {0, 0, 0}; xrl_error *e = nullptr; long l0 = W_live; int rv = ::Atomic_Factors(Z, E, q, deb, &a[0], &a[1], &a[2], &e); long lc = W_live - l0 - (e ? 2 : 0);
+    bool ok = e == nullptr; int code = e ? (int)e->code : -1; std::string msg = e ? e->message : ""; xrl_clear_error(&e);
+    int xr = 0; std::string what; l0 = W_live; int xc = guarded([&] { xr = xrlpp::Crystal::Atomic_Factors(Z, E, q, deb, &b[0], &b[1], &b[2]); }, what);
+    int h0[3] = {Z, 0, 0}; wit_c(w, sizeof w, "", h0, E, deb, q, nullptr);
+    observe("Crystal::Atomic_Factors", std::string(icls(Z)) + "," + dcls(E) + "," + dcls(q) + "," + dcls(deb) + ",", ok, code, msg, xc == X_NONE && xr == rv && biteq(a[0], b[0]) && biteq(a[1], b[1]) && biteq(a[2], b[2]), xc, what, lc, W_live - l0, w);
+  }
+  if (part == 0) {
+    { std::string what; bool same = false; int xc = guarded([&] { auto l = xrlpp::Crystal::GetCrystalsList(); same = (int)l.size() == nc; for (int i = 0; same && i < nc; i++) same = l[i] == names[i]; }, what);
+      observe("Crystal::GetCrystalsList", "", true, -1, "", same, xc, what, 0, 0, "{}"); }
+    // every error code through the class map (the codes the library raises only under conditions that cannot be staged here: memory, io, type, unsupported)
+    for (int code = 0; code <= 5; code++) { std::string what; long l0 = W_live; int xc = guarded([&] { xrlpp::_process_error(::xrl_error_new_literal((xrl_error_code)code, "staged message")); }, what);
+      snprintf(w, sizeof w, "{\"i\":[%d]}", code); observe("_process_error", "code,", false, code, "staged message", false, xc, what, 0, W_live - l0, w); }
+    // Crystal_AddCrystal into the built-in collection: a fresh name until the collection is full (then the C call fails with a run-time error), and a name that is
+    // already there.  The C outcome of the very same call in the very same state is obtained in a forked child.
+    for (int i = 0; i < 500; i++) for (int dup = 0; dup < (i % 50 == 0 ? 2 : 1); dup++) {
+      char nm[32]; snprintf(nm, sizeof nm, dup ? "Si" : "zz%03d", i);
+      xrlpp::Crystal::Struct si = xrlpp::Crystal::GetCrystal("Si"); xrlpp::Crystal::Struct x(nm, si.a, si.b, si.c, si.alpha, si.beta, si.gamma, si.volume, si.atom);
+      int fd[2]; if (pipe(fd)) break; fflush(stdout); pid_t p = fork();
+      if (p == 0) { COut o; std::memset(&o, 0, sizeof o); Crystal_Struct *c = ::Crystal_GetCrystal("Si", nullptr, nullptr); ::xrlFree(c->name); c->name = ::xrl_strdup(nm); xrl_error *e = nullptr; o.iv = ::Crystal_AddCrystal(c, nullptr, &e);
+        o.ok = e == nullptr; o.code = e ? (int)e->code : -1; if (e) snprintf(o.msg, sizeof o.msg, "%s", e->message); if (write(fd[1], &o, sizeof o) != (ssize_t)sizeof o) _exit(1); _exit(0); }
+      close(fd[1]); COut o; std::memset(&o, 0, sizeof o); bool got = read(fd[0], &o, sizeof o) == (ssize_t)sizeof o; close(fd[0]); int st; waitpid(p, &st, 0); if (!got) { o.ok = 0; o.code = -7; }
+      for (int k = 0; k < 2; k++) {
+        if (k == 1 && o.ok) break;              // the free function is tried on the same state only when the call cannot succeed (a success changes the state)
+        int xr = -99; std::string what; long l0 = W_live; int xc = guarded([&] { xr = k ? xrlpp::Crystal::AddCrystal(x) : x.AddCrystal(); }, what);
+        snprintf(w, sizeof w, "{\"s\":\"%s\",\"i\":[%d]}", nm, i);
+        observe(k ? "Crystal::AddCrystal" : "Crystal::Struct::AddCrystal", dup ? "present," : "fresh,", o.ok, o.code, o.msg, xc == X_NONE && xr == o.iv, xc, what, 0, xc == X_NONE ? 0 : W_live - l0, w);
+      }
+    }
+  }
+  for (int i = 0; i < nc; i++) ::xrlFree(names[i]); ::xrlFree(names);
+}
 int main(int argc, char **argv) {
   int part = argc > 1 ? atoi(argv[1]) : 0, np = argc > 2 ? atoi(argv[2]) : 1; bool thorough = argc > 3 && !strcmp(argv[3], "thorough");
   if (!freopen("/dev/null", "w", stderr)) return 2;
   build_lists(thorough); int idx = 0;
   for (const CxxFn *f = CXX_TABLE; f->name; f++, idx++) if (idx % np == part) { drive(*f, thorough); printf("{\"k\":\"drove\",\"fn\":\"%s\"}\n", f->name); }
+  drive_crystals(thorough, part, np);
   if (part == 0) { drive_objects(); for (const char **s = CXX_SKIPPED; *s; s++) printf("{\"k\":\"skipped\",\"fn\":\"%s\"}\n", *s); }
   for (auto &kv : table) printf("{\"k\":\"xcls\",%s,\"n\":%ld,\"w\":%s}\n", kv.first.c_str(), kv.second.n, kv.second.wit.c_str());
   printf("{\"k\":\"sum\",\"calls\":%ld,\"classes\":%zu}\n", ncalls, table.size());
